@@ -33,6 +33,13 @@ func init() {
 		g.callSeq(grp, pk, "Cluster.UpdatePod", "updatePodCalls", []string{"updateNodeUsageFromPodCompletion", "updateNodeUsageFromPod"})
 		g.callSeq(grp, "pkg/scheduling", "VolumeUsage.Add", "volumeUsageAddCalls", []string{"DeletePod", "Union", "Insert"})
 		g.callSeq(grp, "pkg/scheduling", "VolumeUsage.DeletePod", "volumeUsageDeleteCalls", []string{"Union", "Insert"})
+		// the fallible volume lookup of updateForPod and the calls that compute / write the pod's usage, in source order
+		g.callSeq(grp, pk, "StateNode.updateForPod", "updateForPodCalls", []string{"GetHostPorts", "GetVolumes", "RequestsForPods", "LimitsForPods", "IsOwnedByDaemonSet", "EvictionCost", "Add"})
+		// MarkForDeletion / UnmarkForDeletion range over all their provider ids: no statement leaves the loop early
+		g.c11LoopExits(grp, pk, "Cluster.MarkForDeletion", "markForDeletionLoopExits")
+		g.c11LoopExits(grp, pk, "Cluster.UnmarkForDeletion", "unmarkForDeletionLoopExits")
+		// the DaemonSet pod cache: what UpdateDaemonSet does with daemonSetPods
+		g.callSeq(grp, pk, "Cluster.UpdateDaemonSet", "updateDaemonSetCalls", []string{"List", "IsControlledBy", "After", "Load", "Store", "Delete", "DeepCopy"})
 	})
 }
 
@@ -238,6 +245,50 @@ func (g *gen) c11PkgCalls(group, pkgPath, fn, pkgIdent, lean string) {
 	b := g.out(group)
 	fmt.Fprintf(b, "/-- the `%s.*` functions called inside `%s.%s`, in source order (%s) -/\ndef %s : List String := [", pkgIdent, pkgPath, fn, g.pos(fd.Pos()), lean)
 	for i, s := range seq {
+		if i > 0 {
+			b.WriteString(", ")
+		}
+		b.WriteString(leanStr(s))
+	}
+	b.WriteString("]\n\n")
+}
+
+// c11LoopExits lists the statements inside the function's range/for loops that leave the loop (or the function) early:
+// "return", "break", "goto" (a `continue` only skips one element).
+func (g *gen) c11LoopExits(group, pkgPath, fn, lean string) {
+	_, fd := g.findFunc(pkgPath, fn)
+	if fd == nil {
+		return
+	}
+	var exits []string
+	var inLoop func(n ast.Node) bool
+	inLoop = func(n ast.Node) bool {
+		switch v := n.(type) {
+		case *ast.FuncLit:
+			return false
+		case *ast.ReturnStmt:
+			exits = append(exits, "return")
+		case *ast.BranchStmt:
+			if v.Tok.String() != "continue" {
+				exits = append(exits, v.Tok.String())
+			}
+		}
+		return true
+	}
+	ast.Inspect(fd.Body, func(n ast.Node) bool {
+		switch v := n.(type) {
+		case *ast.RangeStmt:
+			ast.Inspect(v.Body, inLoop)
+			return false
+		case *ast.ForStmt:
+			ast.Inspect(v.Body, inLoop)
+			return false
+		}
+		return true
+	})
+	b := g.out(group)
+	fmt.Fprintf(b, "/-- statements inside the loops of `%s.%s` that leave the loop early (%s) -/\ndef %s : List String := [", pkgPath, fn, g.pos(fd.Pos()), lean)
+	for i, s := range exits {
 		if i > 0 {
 			b.WriteString(", ")
 		}
